@@ -38,7 +38,10 @@ func main() {
 	for _, cs := range valsim.Corpus(c.Rng) {
 		valsim.Run(c, cs, opt)
 	}
-	n := c.Scale(900, 30000)
+	n := c.Scale(900, 20000)
+	if c.Tier != "quick" {
+		opt.RejectSample = 4
+	}
 	mix := valsim.Mix{BreakView: 5, Mutate: 45, SigMutate: 20, Bytes: 5}
 	for i := 0; i < n; i++ {
 		cs, ok := valsim.Generate(c.Rng, mix, nil)
